@@ -325,6 +325,25 @@ def run(tier: str) -> int:
     chk.coverage['transitions'] = ntrans
     chk.coverage['exhaustive'] = True
     chk.coverage['fixed_point_rounds'] = rounds
+    # (iii) the property's own quantifier on the real MIR: the writer is suspended at EVERY one of its scheduling points
+    # (one preemption), the read then runs alone and must finish without ever blocking, spinning or exceeding the step bound
+    from ..concheck import ConcScenario
+    from ._conc import run_conc, report
+    tree = list(range(10))
+    cs = [
+        ConcScenario('suspend/resize-vs-get-hit', hasher='identity', capacity=2, prefill=[0, 4], threads=[[('insert', 1)], [('get', 4)]], preemptions=1, readers=[1]),
+        ConcScenario('suspend/resize-vs-get-miss', hasher='identity', capacity=2, prefill=[0, 4], threads=[[('insert', 1)], [('get', 12)]], preemptions=1, readers=[1]),
+        ConcScenario('suspend/resize-vs-get-miss-other-bin', hasher='identity', capacity=2, prefill=[0, 1, 4], setup_removes=[1], threads=[[('insert', 2)], [('get', 5)]], preemptions=1, readers=[1]),
+        ConcScenario('suspend/compute-vs-get', hasher='identity', capacity=2, prefill=[0, 4], threads=[[('compute_inc', 4)], [('get', 4)]], preemptions=1, readers=[1]),
+        ConcScenario('suspend/clear-vs-get', hasher='identity', capacity=2, prefill=[0, 4], threads=[[('clear',)], [('get', 0)]], preemptions=1, readers=[1]),
+        ConcScenario('suspend/tree-insert-vs-get', hasher='samebin', capacity=40, prefill=tree, threads=[[('insert', 10)], [('get', 6)]], preemptions=1, readers=[1]),
+        ConcScenario('suspend/tree-remove-vs-get-miss', hasher='const', capacity=40, prefill=tree, threads=[[('remove', 4)], [('get', 30)]], preemptions=1, readers=[1]),
+        ConcScenario('suspend/untreeify-vs-get', hasher='const', capacity=40, prefill=tree, setup_removes=[0, 1, 2], threads=[[('remove', 3)], [('get', 8)]], preemptions=1, readers=[1]),
+        ConcScenario('suspend/treeify-vs-get', hasher='const', capacity=40, prefill=list(range(8)), threads=[[('insert', 8)], [('get', 5)]], preemptions=1, readers=[1]),
+    ]
+    cres = run_conc(cs)
+    chk.bounds['(iii)'] = 'writer suspended at each of its scheduling points (1 preemption), reader run in isolation; writers: insert with resize, compute, clear, tree insert/remove, untreeify, treeify; readers: get hit/miss'
+    report(chk, 'C12', cres, cs, owned_kinds=('read-blocks', 'livelock', 'deadlock'), describe='the read finishes without blocking or spinning wherever the writer is suspended')
     if bad_roots or cyc_fail:
         p = native.run_program('c12', REPLAY, [], release=False, timeout=300)
         m = re.search(r'blocked=(\d+)', p.stdout)
